@@ -453,6 +453,12 @@ pub trait Allocator<VM: VMBinding>: Downcast {
         let mut previous_result_zero = false;
 
         loop {
+            #[cfg(mmtk_verif)]
+            {
+                use crate::util::verif::rt;
+                rt::event(rt::ev::ALLOC_SLOW_ITER, size, is_mutator as usize, 0);
+                rt::yield_point(rt::site::ALLOC_SLOW);
+            }
             // Try to allocate using the slow path
             let result = if is_mutator && stress_test && *self.get_context().options.precise_stress
             {
